@@ -1,10 +1,21 @@
-import Gv.Proofs.BagRef10
+import Gv.Proofs.BagNames
 /-!
 # C01 — containers stay rectangular, uniquely named and index-consistent
 
 Property theorems about the implementation-shaped model `Gv.Model.Bag` (ordered rows with pointer
 ids + a separate name index + cached alignment length, `lean/Gv/Model/Bag.lean`), for operation
-histories of **any** length.
+histories of **any** length:
+
+* `step_inv` / `run_inv` — the weak representation invariant, also after caller-made name collisions;
+* `step_rect` / `run_rect` / `rows_have_reported_length` — rectangularity (and the kernel-checked
+  violation `translate_three_frames_not_rect` of the one excluded case);
+* `step_names_nodup` / `run_names_nodup` — names stay pairwise distinct unless the caller edits names;
+* `step_refines` / `run_refines` — refinement to the plain-list reference model `Gv.Spec.stepOp`, for
+  all 24 operations of the history language;
+* `lookup_paths_agree`, `idByName_spec`, `byName_found_iff`, `obs_*` — the access paths agree;
+* `add_wrong_length_rejected` — a sequence of the wrong length is rejected, state unchanged.
+
+Helper developments: `Gv/Proofs/Bag*.lean`.
 -/
 namespace Gv.Props.C01
 open Gv Gv.Model Gv.Proofs.BagInv Gv.Proofs.BagAbs
@@ -360,6 +371,11 @@ theorem rows_have_reported_length (alphabet : Nat) (ops : List Op) (hw : HistRec
     rw [this]; rfl
   exact ⟨h.rows_len ha, h.length_eq_neg_one_iff ha⟩
 
+/-- why `L ≡ 2 (mod 3)`: the frames 0, 1, 2 of `L ≥ 2` columns have `L/3`, `(L-1)/3`, `(L-2)/3` codons, all equal
+exactly in that case -/
+theorem three_frames_same_count_iff (L : Nat) (h : 2 ≤ L) :
+    (L / 3 = (L - 1) / 3 ∧ (L - 1) / 3 = (L - 2) / 3) ↔ L % 3 = 2 := by omega
+
 /-- the excluded case is a genuine violation (kernel-checked): the three frames of a 6-column
 alignment have 2, 1 and 1 codons; `Translate` reports success and the cached length is 2 -/
 def raggedStart : Bag := finalState (newAlign 1) [.add "a" [65, 67, 71, 84, 65, 67], .add "b" [71, 71, 71, 84, 84, 84]]
@@ -374,6 +390,30 @@ theorem translate_three_frames_not_rect :
   revert this
   decide
 
+
+
+/-! ## names stay pairwise distinct unless the caller renames two rows to the same name -/
+
+/-- **One step keeps the names pairwise distinct**, for every operation other than the caller's own
+name edits (`NameEdit`: `Rename`, `AppendSeqIdentifier`, `CleanNames`, `TrimNames`, `TrimNamesAuto`):
+insertion under every duplicate-name policy either ignores the row or renames it to a name not in use;
+every rebuild goes through insertion; `Concat` only adds rows whose name is absent. -/
+theorem step_names_nodup (b : Bag) (hi : Inv b) (hr : Rect b) (hn : NamesNodup b) (op : Op)
+    (hne : ¬ NameEdit op) (hw : OpWF b op) : NamesNodup (stepOp b op).1 :=
+  (ni_stepOp ⟨hi, hn⟩ hr op hne (fun perm e => by subst e; exact hw)).nodup
+
+/-- … hence for every history without a name edit, from any state with distinct names (in particular
+from the empty containers) -/
+theorem run_names_nodup (ops : List Op) (b : Bag) (hi : Inv b) (hr : Rect b) (hn : NamesNodup b)
+    (hne : ∀ op ∈ ops, ¬ NameEdit op) (hw : HistWF b ops) (hrw : HistRectOK b ops) :
+    NamesNodup (finalState b ops) := by
+  induction ops generalizing b with
+  | nil => exact hn
+  | cons op t ih =>
+    simp only [finalState, List.foldl_cons]
+    exact ih _ (step_inv b hi op hw.1) (step_rect b hr op hrw.1)
+      (step_names_nodup b hi hr hn op (hne op (by simp)) hw.1)
+      (fun o ho => hne o (List.mem_cons_of_mem _ ho)) hw.2 hrw.2
 
 /-! ## refinement: the Go-shaped container is the plain list of (name, sequence) pairs
 
@@ -502,10 +542,25 @@ example : (finalState (newAlign 1) [.add "a" [65, 67], .add "a" [71, 84]]).rows.
 
 -- a history with a renamed duplicate, a rename, a filter, a deduplication, a clone, a concatenation (one row
 -- present in both, one only on the right) and a translation: the reference specifies every step, so the
--- refinement theorem applies to it
+-- refinement theorem applies to it and yields the equality of the final contents
+def demoHist : List Op :=
+  [.add "a" [65, 67, 71], .add "a" [71, 84, 84], .add "c" [65, 67, 71], .rename [("c", "b")],
+   .filter 1 5, .dedup false, .clone, .concat [("a", [71, 71, 71]), ("z", [84, 84, 84])], .translate 0 0]
+
 set_option maxRecDepth 100000 in
-example : (specRun (abs (newAlign 1)) [.add "a" [65, 67, 71], .add "a" [71, 84, 84], .add "c" [65, 67, 71], .rename [("c", "b")],
-    .filter 1 5, .dedup false, .clone, .concat [("a", [71, 71, 71]), ("z", [84, 84, 84])], .translate 0 0]).isSome = true := by decide
+example : ∃ s' sts, specRun (abs (newAlign 1)) demoHist = some (s', sts) ∧
+    abs (finalState (newAlign 1) demoHist) = s' ∧ (runOps (newAlign 1) demoHist).map (·.2) = sts := by
+  have hsome : (specRun (abs (newAlign 1)) demoHist).isSome = true := by decide
+  cases h : specRun (abs (newAlign 1)) demoHist with
+  | none => rw [h] at hsome; cases hsome
+  | some r =>
+    have := run_refines demoHist _ (good_of_empty_align 1) (by simp [demoHist, HistWFR, OpWFR]) r.1 r.2 h
+    exact ⟨r.1, r.2, rfl, this.1, this.2.1⟩
+
+-- adding the same name three times under the default policy: the names stay distinct
+example : NamesNodup (finalState (newAlign 1) [.add "a" [65], .add "a" [67], .add "a" [71], .dedup false]) :=
+  run_names_nodup _ _ (inv_newAlign 1) (rect_of_empty_align 1) (by simp [NamesNodup, newAlign])
+    (by simp [NameEdit]) (by simp [HistWF, OpWF]) (by simp [HistRectOK, RectOK])
 
 -- three frames of a 5-column alignment (5 ≡ 2 mod 3) followed by a filter: within the rectangularity theorem
 example : HistRectOK (newAlign 1) [.add "a" [65, 67, 71, 84, 65], .translate (-1) 0, .filter 1 5] :=
